@@ -90,7 +90,8 @@ CLAIMED["C15"] = other("pool-sim",
     "One real drpcpool.Pool with simulator-owned connections; 2-3 worker tasks Put/Take/re-Put/close/block/unblock over 1-3 keys with all capacity settings; expiry callbacks are director tasks on the fake clock, so "
     "'expiry fired but not completed' is an ordinary schedulable state. Every step at which nobody holds the pool lock an overlay accessor walks the lists: bounds, count == length, forward == backward, per-key sum == global. "
     "Take results are checked for ownership (cached, not handed out, not pool-closed) and state (not closed / blocked / expiry-fired before Take began); at the end (pool closed, timers drained) every Put connection was handed out or "
-    "closed by the pool exactly once. Found and repaired D5 and D11.",
+    "closed by the pool exactly once. Every 4th chunk of runs uses the pooled family of rpc-sim instead: client scripts call pool.Get(...) whose dial creates real drpcconn connections served by a real drpcserver.Serve "
+    "(bounds at every step, every dialed connection closed after pool close, probe through the pool connection succeeds, double Close does not panic). Found and repaired D5, D11 and D14.",
     "DESIGN.md §8 C15", "deterministic simulation with fake-clock timer callbacks as schedulable tasks; list-invariant and ownership oracles",
     "Trusted: overlay accessor VerifState (reads private list fields; a rename breaks the build, exit 2); fake connections; synctest fake clock; sampled operation sequences and schedules.")
 CLAIMED["C16"] = other("mux-sim",
